@@ -5,9 +5,11 @@ UNITS = {
   # concurrent_queue<136-byte struct>: 1 item per page
   'cq1_2': dict(wrapper='w_cq.cpp', mode='lcs', unroll=1, cxxflags=['-DELEM=1'], lvalpath=True, immutable=IMM, threads=thr('vp_thr_q', 2)),
   'cq0_2': dict(wrapper='w_cq.cpp', mode='lcs', unroll=1, cxxflags=['-DELEM=0'], lvalpath=True, immutable=IMM, threads=thr('vp_thr_q', 2)),
+  'cq2_2': dict(wrapper='w_cq.cpp', mode='lcs', unroll=1, cxxflags=['-DELEM=2'], lvalpath=True, immutable=IMM, threads=thr('vp_thr_q', 2)),
   'cq1_3': dict(wrapper='w_cq.cpp', mode='lcs', unroll=1, cxxflags=['-DELEM=1'], lvalpath=True, immutable=IMM, threads=thr('vp_thr_q', 3)),
 }
 PUSH, POP = 1, 2
+NCF = ['-fno-sanitize=null']   # thread-mode code forms &p->f from a not-yet-loaded (null) static temporary without accessing it
 CB = ['--unwind', '20', '--object-bits', '10', '--external-sat-solver', 'kissat']
 def sc(pre_push, pre_pop, a, b, c=None):
     d = {'PRE_PUSH': pre_push, 'PRE_POP': pre_pop, 'OA0': a[0], 'OA1': a[1], 'OB0': b[0], 'OB1': b[1]}
@@ -35,18 +37,52 @@ THREE_T = [
   sc(1, 0, (PUSH, N), (POP, N), (POP, N)),
   sc(8, 0, (PUSH, N), (POP, N), (POP, N)),
 ]
+BPOP, TRYPUSH = 3, 4
+def bsc(cap, *a): return dict(sc(*a), CAP=cap)
+BQ_ONE = [
+  bsc(1, 0, 0, (PUSH, N), (BPOP, N)),        # pop sleeps on the empty queue until the push notifies items_avail
+  bsc(1, 1, 0, (PUSH, N), (BPOP, N)),        # push sleeps on the full queue until the pop notifies slots_avail
+  bsc(1, 1, 0, (TRYPUSH, N), (POP, N)),      # try_push may fail only if the queue was full at some instant
+  bsc(1, 0, 0, (TRYPUSH, N), (BPOP, N)),
+  bsc(2, 1, 0, (PUSH, N), (TRYPUSH, N)),     # two producers, one free slot
+]
+BQ_TWO = [
+  bsc(1, 0, 0, (PUSH, PUSH), (BPOP, BPOP)),  # capacity 1 ping-pong: every operation may sleep
+  bsc(1, 1, 0, (PUSH, BPOP), (BPOP, PUSH)),
+  bsc(2, 2, 0, (PUSH, N), (BPOP, TRYPUSH)),
+]
 DESC = ('2-3 threads x <=2 operations (push / try_pop) after a sequential pre-state; complete linearizability check of the invocation/response '
         'history against a FIFO queue, final drain, lane invariants, page accounting, cbmc memory safety (use after free of pages), lost hand-off (blocked-state oracle)')
+IMMB = [r'S_class_tbb__detail__d2__concurrent_bounded_queue\*\)v_\d+\)\)\.f[34]$']   # my_queue_representation, my_monitors
+UNITS['bq1_2'] = dict(wrapper='w_cq.cpp', mode='lcs', unroll=1, cxxflags=['-DELEM=1', '-DBOUNDED=1'], lvalpath=True, immutable=IMMB, threads=thr('vp_thr_q', 2))
+UNITS['bq1_3'] = dict(wrapper='w_cq.cpp', mode='lcs', unroll=1, cxxflags=['-DELEM=1', '-DBOUNDED=1'], lvalpath=True, immutable=IMMB, threads=thr('vp_thr_q', 3))
 HARNESSES = [
   dict(name='cq_big_2t', unit='cq1_2', harness='h_cq.c', defines={'NT': 2, 'ITEMS_PER_PAGE': 1},
        scenarios_quick=R(3, ONE_OP) + R(2, TWO_OP[:2]), scenarios_thorough=R(4, ONE_OP) + R(3, TWO_OP),
-       cbmc=CB, timeout=900, mem_gb=8, thorough_override={'timeout': 3600},
+       cbmc=CB, timeout=1500, mem_gb=8, thorough_override={'timeout': 3600}, native_cflags=NCF,
        desc='concurrent_queue<136-byte struct> (1 item/page: page allocated by every push, freed by every pop): ' + DESC,
        bounds={'threads': 2, 'ops_per_thread': '<=2', 'free_rounds': 'ROUNDS of the scenario (quick: 3 for 1 op/thread, 2 for 2 ops/thread; thorough 4 / 3)', 'forced_rounds': 2, 'spin_unroll': 1, 'pre_state': 'PRE_PUSH pushes then PRE_POP pops, sequential'}),
+  dict(name='cq_int_2t', unit='cq0_2', harness='h_cq.c', defines={'NT': 2, 'ITEMS_PER_PAGE': 32},
+       scenarios_quick=R(2, [sc(8, 0, (PUSH, N), (POP, N))]), scenarios_thorough=R(3, [sc(0, 0, (PUSH, N), (POP, N)), sc(8, 0, (PUSH, N), (POP, N)), sc(1, 0, (POP, N), (POP, N))]),
+       cbmc=CB, timeout=1500, mem_gb=8, thorough_override={'timeout': 3600}, native_cflags=NCF,
+       desc='concurrent_queue<4-byte struct> (32 items/page: a push with a non-zero page index re-uses tail_page without the page mutex, pops do not free): ' + DESC,
+       bounds={'threads': 2, 'ops_per_thread': 1, 'free_rounds': '2 quick / 3 thorough', 'forced_rounds': 2, 'spin_unroll': 1}),
+  dict(name='cq_pair_2t', unit='cq2_2', harness='h_cq.c', defines={'NT': 2, 'ITEMS_PER_PAGE': 2},
+       scenarios_quick=R(2, [sc(16, 8, (PUSH, N), (POP, N))]), scenarios_thorough=R(3, [sc(8, 0, (PUSH, N), (POP, N)), sc(16, 8, (PUSH, N), (POP, N)), sc(9, 8, (PUSH, N), (POP, N))]),
+       cbmc=CB, timeout=1500, mem_gb=8, thorough_override={'timeout': 3600}, native_cflags=NCF,
+       desc='concurrent_queue<72-byte struct> (2 items/page): push ticket 16 appends a new page to lane 0 while pop ticket 8 (last item of the first page) unlinks and frees that page: ' + DESC,
+       bounds={'threads': 2, 'ops_per_thread': 1, 'free_rounds': '2 quick / 3 thorough', 'forced_rounds': 2, 'spin_unroll': 1}),
   dict(name='cq_big_3t', unit='cq1_3', harness='h_cq.c', defines={'NT': 3, 'ITEMS_PER_PAGE': 1}, tiers=['thorough'],
-       scenarios=R(2, THREE_T), cbmc=CB, timeout=3600, mem_gb=8,
+       scenarios=R(2, THREE_T), cbmc=CB, timeout=3600, mem_gb=8, native_cflags=NCF,
        desc='concurrent_queue<136-byte struct>, 3 threads x 1 operation: ' + DESC,
        bounds={'threads': 3, 'ops_per_thread': 1, 'free_rounds': 2, 'forced_rounds': 2, 'spin_unroll': 1}),
+  dict(name='bq_big_2t', unit='bq1_2', harness='h_cq.c', defines={'NT': 2, 'ITEMS_PER_PAGE': 1, 'BOUNDED': 1},
+       scenarios_quick=R(2, BQ_ONE), scenarios_thorough=R(3, BQ_ONE) + R(2, BQ_TWO),
+       cbmc=CB, timeout=1500, mem_gb=8, thorough_override={'timeout': 5400}, native_cflags=NCF,
+       desc='concurrent_bounded_queue<136-byte struct>, capacity 1-2 (header code real; the r1:: monitor entry points are contract stubs with sleeper bookkeeping): '
+            'push/pop (blocking), try_push, try_pop; linearizability against a BOUNDED FIFO queue (a push takes effect only when size < capacity, try_push fails only when full), '
+            'blocked callers are released (blocked-state oracle: a sleeper that no notify selects although its condition holds is a lost wake-up)',
+       bounds={'threads': 2, 'ops_per_thread': '<=2', 'capacity': '1-2', 'free_rounds': 'ROUNDS of the scenario', 'forced_rounds': 2, 'spin_unroll': 1}),
 ]
 # development aid (mutation testing): C09_SC="0,3" keeps only these scenario indices of every harness
 import os as _os
